@@ -35,6 +35,8 @@ def gen_cases(tier, seed):
             base = I.dag_node_base(rng, wt=wt, exact=exact, max_edges=8) if node else I.dag_edge_base(rng, wt=wt, exact=exact, max_edges=9)
         if all(v == 0 for v in base["flow"].values()):
             continue
+        if rng.random() < 0.2:
+            I.add_zero_elements(rng, base, n=rng.randint(1, 2))      # weights are only required to be non-negative
         elems = base["nodes"] if node else base["edges"]
         c = {"cyc": cyc, "mode": base["mode"], "wt": wt, "k": rng.randint(1, 3), "ignore": [], "scale": [], "starts": [], "ends": [], "superset": None,
              "planted": [[list(p), w] for p, w in base["planted"]]}
